@@ -5,6 +5,7 @@ from tools.framework import Case, Err
 from harness import machines
 from harness.c13 import VOC, SMALL
 from harness.c06 import spec_notes_of
+from harness.common import NATURAL, net
 from mingus.containers import Track, Composition, Bar, Note
 
 ID = "C14"
@@ -55,6 +56,12 @@ def cases(tier, rng):
         yield Case("track.run", [instr, ops], "instrument/" + instr, kind=("instrument", instr))
         yield Case("track.run", [instr, [["add", HIGH, 4], ["add", E3, 4], ["add", E3, 4], ["add", E3, 4], ["add", E3, 4], ["add", HIGH, 4],
                                          ["add", LOW, 1], ["add", E3, 2]]], "instrument/boundary/" + instr, kind=("run",))
+    # plain lists of notes, unsorted, with the note outside the range first, in the middle and last
+    for instr in machines.INSTR:
+        raws = [[["obj", "G", 4], ["obj", "C", 4], ["obj", "E", 4]], [["obj", "C", 4], ["obj", "C", 9], ["obj", "E", 4]],
+                [["obj", "E", 4], ["obj", "C", 0], ["obj", "G", 4]], [["obj", "C", 9], ["obj", "C", 4]], [["obj", "C", 4], ["obj", "C", 9]],
+                [["obj", "G", 5], ["obj", "C", 0], ["obj", "C", 9], ["obj", "E", 4]], [["obj", "B", 6], ["obj", "E", 3]]]
+        yield Case("track.run", [instr, [["add_raw", r, 4] for r in raws]], "instrument/raw-list/" + instr, kind=("rawrange", instr))
     chord_lists = [["C", "Am", "F", "G7"], ["C", None, "G"], [None], [["C", "G"], "Am"], [["C", ["F", None]], None, "Dm7"],
                    ["C", "C", "C", "C", "C"], [None, None, None], ["Ebm7b5", ["Ab13", None, ["Db", "Gb"]]]]
     for cl in chord_lists:
@@ -182,6 +189,18 @@ def oracle(c, obs):
                 return "a note inside the instrument's range was refused"
             if not want and st != Err("InstrumentRangeError"):
                 return "a note outside the instrument's range was not refused with InstrumentRangeError"
+        return None
+    if kind[0] == "rawrange":
+        instr = kind[1]
+        lo = {"none": None, "Instrument": 0, "Piano": 5, "Guitar": 40, "MidiInstrument": 0}[instr]     # C-0, F-0, E-3, C-0
+        hi = {"none": None, "Instrument": 96, "Piano": 107, "Guitar": 88, "MidiInstrument": 107}[instr]  # C-8, B-8, E-7, B-8
+        for op, st in zip(c["args"][1], obs):
+            ps = [12 * o + NATURAL[n[0]] + net(n) for _, n, o in op[1]]
+            inside = lo is None or all(lo <= p <= hi for p in ps)
+            if inside and isinstance(st[0], Err):
+                return "a list of notes inside the instrument's range was refused"
+            if not inside and st[0] != Err("InstrumentRangeError"):
+                return "a list holding a note outside the instrument's range was not refused with InstrumentRangeError"
         return None
     if kind[0] in ("from_chords", "from_chords_off"):
         st = obs[0] if kind[0] == "from_chords" else obs[1]
